@@ -1038,6 +1038,9 @@ def run(ctx):
     ctx.attempt(r27, ctx)
     ctx.rule("R-2.12", "quick_prob: the probability budget is clamped to >= 0 between every subtraction and its next use (no negative entries of P from rounding residues)", floor=1)
     ctx.attempt(r212, ctx)
+    ctx.rule("R-2.13", "random_prob: the swap acceptance ratios are looked up for the current arrangement in every sweep (nothing derived from the arrangement arrays the sweep mutates is computed before the loop)", floor=1)
+    from .shared import hoisted_stale_value
+    ctx.attempt(hoisted_stale_value, ctx, "R-2.13", REPEX, "REPEX_state.random_prob", " - the swap chain keeps the acceptance ratios of the identity arrangement, moves into zero-weight assignments and no longer samples the permanent distribution (P stays doubly stochastic, so the row / column asserts pass)")
     ctx.rule("R-2.9", "random_prob divides by the number of permutation matrices it accumulated (initial identity + one per iteration): the estimate is doubly stochastic", floor=1)
     ctx.attempt(r29, ctx)
     ctx.rule("R-2.10", "the kernel chosen for a block depends on that block (size tests of the dispatch refer to the array handed to the kernel)", floor=2)
@@ -1045,6 +1048,7 @@ def run(ctx):
 
 
 VARIANTS = [
+    B("c02-sweep-ratios-hoisted", REPEX, "            temp_left = prob_left[temp]\n            temp_right = prob_right[temp]\n", "", "R-2.13", control=True, also=[(REPEX, "        temp = np.where(current_state == 1)\n", "        temp = np.where(current_state == 1)\n        temp_left = prob_left[temp]\n        temp_right = prob_right[temp]\n")], why="seeded C02_i"),
     B("c02-budget-clamped-before-subtraction", REPEX, "            total_traj_prob -= ens\n            # force negative values to 0\n            total_traj_prob[np.where(total_traj_prob < 0)] = 0\n", "            # force negative values to 0\n            total_traj_prob[np.where(total_traj_prob < 0)] = 0\n            total_traj_prob -= ens\n", "R-2.12", control=True, why="seeded C05_k"),
     B("c02-budget-never-clamped", REPEX, "            total_traj_prob[np.where(total_traj_prob < 0)] = 0\n", "", "R-2.12"),
     K("c02-keep-budget-clamp-maximum", REPEX, "            total_traj_prob[np.where(total_traj_prob < 0)] = 0\n", "            total_traj_prob = np.maximum(total_traj_prob, 0)\n"),
